@@ -63,6 +63,22 @@ func (cs *ContractStore) Iterate(prefix []byte, fn func(key []byte, value []byte
 	)
 }
 
+// DeleteStorage removes every storage record of the address, committed or still pending in this
+// block. The records of an account end with the account, as its storage trie does in go-ethereum.
+func (cs *ContractStore) DeleteStorage(address ethcmn.Address) {
+	start := cs.GetStoreKey(AddressStoragePrefix(address), nil)
+	end := append([]byte{}, start...)
+	for i := len(end) - 1; i >= 0; i-- { // the next prefix: the keys are binary, Rangefix does not bound them
+		if end[i]++; end[i] != 0 {
+			break
+		}
+	}
+	cs.State.IterateRangeAll(start, end, true, func(key, _ []byte) bool {
+		_, _ = cs.State.Delete(key)
+		return false
+	})
+}
+
 // AddressStoragePrefix returns a prefix to iterate over a given account storage.
 func AddressStoragePrefix(address ethcmn.Address) []byte {
 	return append(KeyPrefixStorage, address.Bytes()...)
